@@ -7,6 +7,9 @@
    (default/platform x global/stage); a stage variable that references replica / loopIteration and a variable the component
    overrides; a component that sets options explicitly to [] / "" / 0 / false where blueprint, built-in and global values are
    not (explicitly empty is not absent); the live objects are made by Create or by Load (Iterate commutes with Store;Load).
+   Packages in the legacy DOSINI format (stored to / reloaded from the .instance.conf files), packages whose conf/ already
+   carries a flowir_instance.yaml, and Reparam: the instance directory loaded as a package for another platform with
+   updateInstanceConfiguration=True (a second store over an existing description; LastStoreWins).
 2. spec -> code: TLC prints every transition with a shortest history that reaches it (ACTION_CONSTRAINT EmitStep).  Every
    maximal history is executed on real directories: Experiment.experimentFromPackage (platform, user variable file,
    replication, DoWhile document), WorkflowGraph.instantiate_dowhile_next_iteration, a dynamic option change,
@@ -476,7 +479,8 @@ def run_history(args):
                 bad["command line of work"] = (got["_work_args"], [(want["uv"], want["pv"])])
             if not dosini and not got["_every_iteration_same_replicas"]:
                 bad["replicas per iteration"] = ("differ", "equal")
-            fields = "+".join(sorted(k.split()[-1] for k in bad if k not in known_bad))
+            fields = sorted(k.split()[-1] for k in bad if k not in known_bad)
+            fields = "+".join(fields[:3] + (["more"] if len(fields) > 3 else []))
             if fields:
                 acts = [x["a"] for x in hist[:i + 1]]
                 if a == "Load":
@@ -613,7 +617,8 @@ def run(tier):
     norp = dict(flowir, reparam=[])          # quick: most families without re-parametrisation
     if thorough:
         families = [
-            flowir,                                                                           # all 192 FlowIR packages
+            dict(flowir, reparam=[]),                                                         # all 192 FlowIR packages
+            dict(flowir, blueprints=["sP"], empties=["empty"]),                               # + re-parametrisation for the other platform
             dict(flowir, stales=[True], blueprints=["sP"], empties=["empty"]),                # + a stale instance file in the package
             dict(full, platforms=["default"], loops=[False], blueprints=["g"], formats=["dosini"], stales=[False]),   # legacy format
         ]
@@ -680,6 +685,10 @@ def run(tier):
         "Patch changes a component variable in both the replicated and the unreplicated FlowIR (the runtime's own pattern for the interface section); "
         "options set only on the replicated FlowIR (setOptionForNode) are by design not part of the stored description",
         "the stored description is compared as parsed YAML (component order ignored), not byte by byte",
+        "legacy (DOSINI) packages: default platform, no loop; compared on user / stage variables, replica count and the falsy-but-set options "
+        "(max-restarts=0, repeatRetries=0, resolvePath=false, empty variable); the global variable scope and flowir_instance.yaml (a by-product "
+        "there) are not compared because a legacy instance keeps its variables per stage",
+        "quick tier: Reparam and stale instance files only in some sub-families",
     ]
     _summary(chk)
     rc = chk.finish()
